@@ -99,14 +99,17 @@ def impl(case):
             return ["err", "ShapeChanged"]
         return [float(v) for v in r]
     coords, shape2d, data, weights, region, shape, spacing, adjust, centre, drop, unc = a
-    cs = tuple(np.array(c).reshape(shape2d) for c in coords)
-    ds = tuple(np.array(d).reshape(shape2d) for d in data)
-    ws = None if weights is None else tuple(np.array(w).reshape(shape2d) for w in weights)
+    key = case["op"][-60:]
+    cs = tuple(C.mkarr(c, shape2d, f"{key}c{i}") for i, c in enumerate(coords))
+    ds = tuple(C.mkarr(d, shape2d, f"{key}d{i}") for i, d in enumerate(data))
+    ws = None if weights is None else tuple(C.mkarr(w, shape2d, f"{key}w{i}") for i, w in enumerate(weights))
     for arr in cs + ds + (ws or ()):
         arr.setflags(write=False)
     bm = vd.BlockMean(spacing=spacing, region=region, adjust=adjust, center_coordinates=centre, uncertainty=unc, shape=shape, drop_coords=drop)
     d_arg = ds[0] if len(ds) == 1 else ds
     w_arg = None if ws is None else (ws[0] if len(ws) == 1 else ws)
+    if weights is not None or not unc:
+        C.call(bm.filter, tuple(np.asarray(c) * 3.0 + 17.0 for c in cs), d_arg, w_arg)     # history: earlier use on another cloud
     r = C.call(bm.filter, cs, d_arg, w_arg)
     if C.is_err(r):
         return r
